@@ -707,3 +707,102 @@ func H_C07_shadowedCall() {
 	vfNote(out)
 	vfAssert(out == want, "a call resolves its name innermost scope first, built-ins last")
 }
+
+// H_C07_assignLevels: a variable that lives in the Execute VarMap, or was declared at the top
+// level of the template, is rebound with = from inside a body that has a scope of its own
+// (range with loop variables, if with a declaration, a body that has declared something
+// else, a block body, the content of a yield, an included file, two of them nested) and
+// read after that body has ended: the rebinding is to the variable itself - it is still in
+// effect afterwards, and accumulates over the iterations of a range.
+//
+//gosym:reach rendered
+func H_C07_assignLevels() {
+	level := ndChoice("level", 2) // 0 VarMap, 1 top-level :=
+	site := ndChoice("site", 8)
+	a := []int64{0, 7, -3}[ndChoice("start", 3)]
+	bodies := []string{
+		`{{ range i, v := s }}{{ total = total + v }}{{ end }}`,
+		`{{ if y := 1; true }}{{ total = total + six }}{{ end }}`,
+		`{{ if true }}{{ other := 1 }}{{ total = total + six }}{{ end }}`,
+		`{{ block b() }}{{ other := 1 }}{{ total = total + six }}{{ end }}`,
+		`{{ yield wrap() content }}{{ other := 1 }}{{ total = total + six }}{{ end }}`,
+		`{{ include "/inc.jet" }}`,
+		`{{ range i, v := s }}{{ if y := v; true }}{{ total = total + y }}{{ end }}{{ end }}`,
+		`{{ try }}{{ other := 1 }}{{ total = total + six }}{{ end }}`,
+	}
+	src := `{{ import "/lib.jet" }}`
+	if level == 1 {
+		src += `{{ total := start }}`
+	}
+	src += bodies[site] + `total={{ total }}`
+	set := hxSet(nil, "/m.jet", src,
+		"/lib.jet", `{{ block wrap() }}{{ yield content }}{{ end }}`,
+		"/inc.jet", `{{ other := 1 }}{{ total = total + six }}`)
+	vars := make(VarMap)
+	vars.Set("s", []int64{1, 2, 3})
+	vars.Set("six", int64(6))
+	if level == 0 {
+		vars.Set("total", a)
+	} else {
+		vars.Set("start", a)
+	}
+	out, err := hxExec(set, "/m.jet", vars, nil)
+	vfReach("rendered")
+	vfAssert(err == nil, "renders")
+	want := "total=" + c07Itoa(a+6)
+	vfNote(out)
+	vfAssert(out == want, "= rebinds the variable itself, wherever it lives; the new value outlives the body")
+}
+
+func c07Itoa(v int64) string {
+	if v < 0 {
+		return "-" + ndItoa(int(-v))
+	}
+	return ndItoa(int(v))
+}
+
+// H_C07_yieldArgsContext: a yield (or a block at its definition site) is given an explicit
+// context AND arguments / parameter defaults that read '.': the arguments are evaluated
+// where the yield stands - '.' is still the caller's there - and only the block body sees
+// the explicit context; afterwards '.' is the caller's again. At the top level, inside a
+// range (where '.' is the element) and inside an if.
+//
+//gosym:reach rendered
+func H_C07_yieldArgsContext() {
+	form := ndChoice("form", 5)
+	site := ndChoice("site", 3)
+	def := `{{ block show(label="none") }}[{{ label }}>{{ . }}]{{ end }}`
+	var call, want string
+	dot := []string{"root", "e", "root"}[site]
+	switch form {
+	case 0:
+		call, want = `{{ yield show(label=.) "kid" }}`, "["+dot+">kid]"
+	case 1:
+		call, want = `{{ yield show(label=. + "!") "kid" }}`, "["+dot+"!>kid]"
+	case 2:
+		call, want = `{{ block other(label=.) "kid" }}[{{ label }}>{{ . }}]{{ end }}`, "["+dot+">kid]"
+	case 3:
+		call, want = `{{ yield show(label=.) }}`, "["+dot+">"+dot+"]"
+	default:
+		call, want = `{{ yield show(label=pick(.)) "kid" }}`, "[<"+dot+">>kid]"
+	}
+	after := `|{{ . }}`
+	var body string
+	switch site {
+	case 0:
+		body = call + after
+	case 1:
+		body = `{{ range one }}` + call + after + `{{ end }}`
+	default:
+		body = `{{ if true }}` + call + after + `{{ end }}`
+	}
+	set := hxSet([]Option{WithSafeWriter(nil)}, "/m.jet", `{{ import "/lib.jet" }}`+body+`|{{ . }}`, "/lib.jet", def)
+	vars := make(VarMap)
+	vars.Set("one", []string{"e"})
+	vars.Set("pick", func(s string) string { return "<" + s + ">" })
+	out, err := hxExec(set, "/m.jet", vars, "root")
+	vfReach("rendered")
+	vfAssert(err == nil, "renders")
+	vfNote(out)
+	vfAssert(out == want+"|"+dot+"|root", "yield arguments see the caller's '.', the block body the explicit context")
+}
